@@ -558,3 +558,28 @@ func readerSeq(args []string) error {
 	printJSON(map[string]int{"cases": n, "hung": 0})
 	return nil
 }
+
+func init() { register("frame-parsefile", frameParseFile) }
+
+// frameParseFile prints the reference parser's strict summary of a file and whether its content
+// equals another file (used for the .lz4 files written by the lz4c command, C20).
+func frameParseFile(args []string) error {
+	fs := flag.NewFlagSet("frame-parsefile", flag.ExitOnError)
+	file := fs.String("file", "", "")
+	input := fs.String("input", "", "")
+	fs.Parse(args)
+	b, err := os.ReadFile(*file)
+	if err != nil {
+		return err
+	}
+	in, err := os.ReadFile(*input)
+	if err != nil {
+		return err
+	}
+	p := ref.ParseFrame(b, true)
+	s := refSummary(p, len(b))
+	s["same"] = bytes.Equal(p.Content, in)
+	s["blocks"] = len(p.Blocks)
+	printJSON(s)
+	return nil
+}
